@@ -1,6 +1,7 @@
 import HioModel.Sched.TimeSched
 import HioModel.Sched.TimeCycle
 import HioModel.Sched.TimeFlatL
+import HioModel.Sched.TimeOrder
 /-!
 # C03 "Virtual-time scheduling follows the documented cycle model"
 
@@ -62,6 +63,33 @@ theorem once_per_cycle_in_order (pool : List (Spec τ)) (now stock : τ) (sid : 
 theorem once_per_cycle (pool : List (Spec τ)) (now stock : τ) (sid : Id) (un : List (RT τ)) (c : Cyc τ)
     (hn : (RT.liveIdsL un).Nodup) : (recurIds (runCycle pool now stock sid un c).1).Nodup :=
   (runCycle_cycleOK pool now stock sid un c).2.nodup hn
+
+/-- IN ENTER ORDER (guard F03: no leaf among the entered doers extends — `Spec.allStepsL stepsNoExtend`): in every cycle
+`k` of a run whose enters succeeded, the resumed ids — Doist level and every nesting depth — form a sublist of the ids of
+the run's `enter` events in trace order, and all events of the cycle carry the cycle's tyme.  Composition of
+`once_per_cycle_in_order` with the C02 invariant `FitsL` (the live tree embeds in order into the spec tree). -/
+theorem cycle_runs_in_enter_order_partial (pool : List (Spec τ)) (tock start : τ) (specs : List (Spec τ))
+    (hG : Spec.allStepsL stepsNoExtend specs = true) (hE : (enterList start specs).2.2 = false)
+    (k : Nat) {now : τ} {deeds : List (RT τ)} {doers : List Id}
+    (h : cycState pool tock k start (enterList start specs).2.1 (specs.map Spec.id) = some (now, deeds, doers)) :
+    (recurIds (runCycle pool now tock 0 deeds { doers := doers }).1).Sublist (enterIds (enterList start specs).1)
+      ∧ ∀ e ∈ (runCycle pool now tock 0 deeds { doers := doers }).1, e.tyme = now := by
+  obtain ⟨hf0, ha0⟩ := C02.enterList_fits start stepsNoExtend specs
+  obtain ⟨_, hf⟩ := cycState_fits pool tock specs k start _ _ (ha0 hG) hf0 h
+  have hc := runCycle_cycleOK pool now tock 0 deeds { doers := doers }
+  rw [enterList_enterIds start specs hE]
+  exact ⟨hc.2.trans (FitsL_liveIds specs deeds hf), hc.1⟩
+
+/-- without the guard the clause fails (pre-finding F03, the C02 known finding seen from C03): doer 5, extended by doer 2
+in cycle 0, is queued BEFORE its extender: enter order 1,2,3,5 — cycle 1 runs 1,5,2,3 -/
+theorem cycle_order_fails_after_extend :
+    let y0 : Step Nat := ⟨[], .yieldT (some 0)⟩
+    let specs : List (Spec Nat) := [.leaf 1 .ok [y0, y0, y0], .leaf 2 .ok [⟨[.extend [0]], .yieldT (some 0)⟩, y0, y0], .leaf 3 .ok [y0, y0, y0]]
+    let pool : List (Spec Nat) := [.leaf 5 .ok [y0, y0, y0]]
+    ∃ now deeds doers, cycState pool 1 1 0 (enterList 0 specs).2.1 (specs.map Spec.id) = some (now, deeds, doers)
+      ∧ recurIds (runCycle pool now 1 0 deeds { doers := doers }).1 = [1, 5, 2, 3]
+      ∧ enterIds (doistDo pool 1 0 (some 2) 50 specs).evs = [1, 2, 3, 5] := by
+  refine ⟨_, _, _, rfl, ?_, ?_⟩ <;> decide
 
 /-! ### due tymes (one step, at every scheduler level) -/
 
